@@ -231,11 +231,16 @@ pub struct NotifyCase {
 
 pub fn notify_strategy() -> impl Strategy<Value = NotifyCase> {
     let max = prop_oneof![3 => Just(120u32), 1 => 1u32..6, 1 => 2u32..40];
-    (
-        max,
-        prop::collection::vec((0u8..3, 0u8..3, prop_oneof![6 => 1u32..4, 2 => prop::sample::select(vec![119u32, 120, 121, 239, 240, 241]), 1 => 1u32..300]), 1..12),
-    )
-        .prop_map(|(max_count, ops)| NotifyCase { max_count, ops })
+    prop_oneof![
+        4 => (
+            max.clone(),
+            prop::collection::vec((0u8..3, 0u8..3, prop_oneof![6 => 1u32..4, 2 => prop::sample::select(vec![119u32, 120, 121, 239, 240, 241]), 1 => 1u32..300]), 1..12),
+        )
+            .prop_map(|(max_count, ops)| NotifyCase { max_count, ops }),
+        // many state keys (the service has two today; the limiter is per key, however many there are)
+        1 => (max, prop_oneof![Just(8u8), Just(17u8), Just(33u8), Just(65u8), Just(200u8)], prop::collection::vec((any::<u8>(), 0u8..3, prop_oneof![8 => 1u32..3, 1 => prop::sample::select(vec![119u32, 120, 121])]), 20..120))
+            .prop_map(|(max_count, width, ops)| NotifyCase { max_count, ops: ops.into_iter().map(|(k, v, r)| (k % width, v, r)).collect() }),
+    ]
 }
 
 /// one word per operation
@@ -253,6 +258,10 @@ pub fn eval_notify(case: &NotifyCase, stats: &mut Stats) -> Outcome {
     let mut rf: std::collections::BTreeMap<u8, (u8, u64)> = Default::default();
     let mut long_run = false;
     let mut n = 0u64;
+    let distinct_keys = case.ops.iter().map(|o| o.0).collect::<std::collections::BTreeSet<_>>().len();
+    if distinct_keys > 3 {
+        stats.class(if distinct_keys >= 17 { "notify:>=17-state-keys" } else { "notify:4-16-state-keys" });
+    }
     for (k, v, rep) in &case.ops {
         if *rep >= case.max_count {
             long_run = true;
@@ -293,4 +302,4 @@ pub fn eval_notify(case: &NotifyCase, stats: &mut Stats) -> Outcome {
     Outcome::Pass
 }
 
-pub const RULE: &str = "health: (a) EXHAUSTIVE: every success/failure sequence of length 22 from the initial state (2^22; every shorter sequence is a prefix and all predicates are checked after every step), one in 256 followed by a liveness tail (2 successes => Success, 21 failures => Error, 1 success => not Error); the 2^18 sequences whose last steps are failures are also run from StatusState::default(); (b) generated alternating runs with lengths around 1..3, 18..22 and the counters' saturation point 9999..10020, always followed by the liveness tail; (c) notification sequences over 3 keys x 3 values, max_count 120 (production) or small, repeat counts around max_count and 2*max_count. oracle: reference automaton + trace predicates from the statement (Error only with >= 20 consecutive failures ending at that step, never on a success step, two successes => Success), reference rate limiter. non-trivial: sequence with a failure run >= 19 or a saturating run; notification history with a run >= max_count; distinct by hash of the sequence.";
+pub const RULE: &str = "health: (a) EXHAUSTIVE: every success/failure sequence of length 22 from the initial state (2^22; every shorter sequence is a prefix and all predicates are checked after every step), one in 256 followed by a liveness tail (2 successes => Success, 21 failures => Error, 1 success => not Error); the 2^18 sequences whose last steps are failures are also run from StatusState::default(); (b) generated alternating runs with lengths around 1..3, 18..22 and the counters' saturation point 9999..10020, always followed by the liveness tail; (c) notification sequences over 3 keys (a fifth of the cases: 20-119 operations over up to 8/17/33/65/200 keys) x 3 values, max_count 120 (production) or small, repeat counts around max_count and 2*max_count. oracle: reference automaton + trace predicates from the statement (Error only with >= 20 consecutive failures ending at that step, never on a success step, two successes => Success), reference rate limiter. non-trivial: sequence with a failure run >= 19 or a saturating run; notification history with a run >= max_count; distinct by hash of the sequence.";
